@@ -345,13 +345,27 @@ def _by_return_site(fr: Frame, fi, amap, names, mk):
     ev = fr.ev
     if not all(isinstance(amap[n], (Rat, Vec, Obj)) for n in names):
         return None
+    ck = (fi.qualname, tuple((n, repr(vkey(amap[n]))) for n in names))
+    cache = ev.__dict__.setdefault("_site_cache", {}) if hasattr(ev, "__dict__") else {}
+    if ck in cache:
+        return cache[ck]
+    cache[ck] = None
+    out_ = _by_return_site_(fr, fi, amap, names, mk)
+    cache[ck] = out_
+    return out_
+
+
+def _by_return_site_(fr: Frame, fi, amap, names, mk):
+    ev = fr.ev
     n_log, n_ev, keep_fresh = len(ev.summary_log), len(fr.events), ev.fresh
     try:
         res = ev.eval_function(fi, dict(amap), fr.depth + 1)
     except (Unsupported, AnalysisError_, RecursionError):
         del ev.summary_log[n_log:]
+        ev.fresh = keep_fresh
         return None
     del ev.summary_log[n_log:]
+    ev.fresh = keep_fresh            # (nothing of the trial evaluation survives but exact values and tagged calls)
     val = res.value()
     cases = cases_of(val)
     if len(cases) < 2 or any(_unknown(g) for g, _v in cases):
